@@ -66,9 +66,9 @@ func c02canon() []*codec.Node {
 	// a search with a composite filter, a modify with two changes, an add with two attributes, two controls
 	s := canonReq("search")
 	s.FilterBER = codec.Cons(codec.Context, 0, // and
-		codec.Cons(codec.Context, 1, codec.Cons(codec.Context, 3, codec.Octet("cn"), codec.Octet("x")), codec.CtxPrim(7, "sn")), // or(eq, present)
+		codec.Cons(codec.Context, 1, codec.Cons(codec.Context, 3, codec.Octet("cn"), codec.Octet("x")), codec.CtxPrim(7, "sn")),                                       // or(eq, present)
 		codec.Cons(codec.Context, 2, codec.Cons(codec.Context, 4, codec.Octet("cn"), codec.Seq(codec.CtxPrim(0, "a"), codec.CtxPrim(1, "b"), codec.CtxPrim(2, "c")))), // not(substrings)
-		codec.Cons(codec.Context, 9, codec.CtxPrim(1, "1.2.3"), codec.CtxPrim(2, "cn"), codec.CtxPrim(3, "v"), codec.Prim(codec.Context, 4, []byte{0xff})), // extensible
+		codec.Cons(codec.Context, 9, codec.CtxPrim(1, "1.2.3"), codec.CtxPrim(2, "cn"), codec.CtxPrim(3, "v"), codec.Prim(codec.Context, 4, []byte{0xff})),            // extensible
 	).Bytes()
 	s.Attrs = []string{"cn", "mail"}
 	out = append(out, s.Node())
